@@ -1,9 +1,16 @@
 """C18 - wire primitives (CompactSize, script numbers, pushes) are canonical and round-trip."""
-CONTRACT_MODULES = ['contracts.encoding']
+CONTRACT_MODULES = ['contracts.encoding', 'contracts.scripts']
 CONTRACTS = [
     'bitcoinlib.encoding.int_to_varbyteint',
     'bitcoinlib.encoding.varbyteint_to_int',
     'bitcoinlib.encoding.varstr',
+    'bitcoinlib.encoding.read_varbyteint',
+    'bitcoinlib.encoding.read_varbyteint_return',
+    'bitcoinlib.scripts.data_pack',
+    'bitcoinlib.scripts.encode_num',
+    'bitcoinlib.scripts.encode_num[reencode]',
+    'bitcoinlib.scripts.decode_num',
+    'bitcoinlib.scripts.decode_num[roundtrip]',
 ]
 LEVEL = 'proof'
 TRUSTED = []
